@@ -564,7 +564,56 @@ def check_unevaluated_lookalikes_and_numeric_types(h: Harness):
                    f"{'min' if minimize else 'max'}imise, k={k}: kept the scores {kept}, the {k} best are {sorted(best)}", {"vals": vals, "cast": cname, "k": k, "minimize": minimize})
 
 
+def check_adaptive_gp_keeps_its_best(h: Harness):
+    """AdaptiveGeneticProgramming reserves elitism slots in its (feedback) parallel step: from one generation to the next the best fitness
+    in the population does not get worse, whatever sizes the generations have (judged where both generations have at least 20 members, so
+    that the elitism share is at least one slot)"""
+    from props.eval_common import ScriptRep
+    from geneticengine.algorithms.gp.adaptive import AdaptiveGeneticProgramming
+    from geneticengine.algorithms.gp.structure import PopulationInitializer
+    from geneticengine.evaluation.budget import AnyOf, EvaluationBudget, TimeBudget
+    from geneticengine.evaluation.recorder import SearchRecorder
+
+    class Plain(PopulationInitializer):
+        def initialize(self, problem, representation, random, target_size, **kwargs):
+            for _ in range(target_size):
+                yield Individual(representation.create_genotype(random), representation)
+    rng = h.rng
+    for trial in range(h.n(4, 40)):
+        minimize = trial % 2 == 1
+        keys = [rng.randint(0, 1000) for _ in range(997)]
+        gens: dict = {}
+
+        class Rec(SearchRecorder):
+            def register(self, tracker, individual, problem, is_best, gens=gens):
+                gens.setdefault(individual.metadata.get("generation"), []).append(individual.get_fitness(problem).maximizing_aggregate)
+        problem = SingleObjectiveProblem(lambda ph: float(ph[1]), minimize=minimize)
+        tracker = SingleObjectiveProgressTracker(problem, SequentialEvaluator(), recorders=[Rec()])
+        seedv = rng.randrange(10**6)
+        try:
+            alg = AdaptiveGeneticProgramming(problem, AnyOf(EvaluationBudget(1500), TimeBudget(30)), ScriptRep(keys), NativeRandomSource(seedv), tracker)
+            alg.population_initializer = Plain()
+            alg.population_size = 60
+            alg.search()
+        except Exception as e:  # noqa: BLE001
+            h.fail("AdaptiveGeneticProgramming.search", "raises", f"{type(e).__name__}: {e}"[:200], {"trial": trial})
+            continue
+        order = sorted(k for k in gens if k is not None)
+        bests = [max(gens[k]) for k in order]
+        sizes = [len(gens[k]) for k in order]
+        h.count("adaptive-gp-generations", len(order))
+        h.seen(f"adaptive-keeps-best:{trial}:{seedv}", nontrivial=len(order) >= 3)
+        for i in range(len(order) - 1):
+            if min(sizes[i], sizes[i + 1]) >= 20 and bests[i + 1] < bests[i]:
+                h.fail("AdaptiveGeneticProgramming.search", "best-fitness-decreased",
+                       f"AdaptiveGeneticProgramming ({'min' if minimize else 'max'}imise, seed {seedv}): the best aggregate of generation {order[i]} is {bests[i]}, of "
+                       f"generation {order[i + 1]} it is {bests[i + 1]} (generation sizes {sizes[i]} and {sizes[i + 1]}; elitism slots are reserved)",
+                       {"trial": trial, "seed": seedv, "bests": bests, "sizes": sizes})
+                break
+
+
 def run(h: Harness):
+    check_adaptive_gp_keeps_its_best(h)
     check_unevaluated_lookalikes_and_numeric_types(h)
     check_parallel_evaluator(h)
     check_simplegp_elitism(h)
